@@ -22,7 +22,6 @@ import (
 
 	"github.com/invopop/gobl"
 	"github.com/invopop/gobl/schema"
-	"github.com/invopop/gobl/tax"
 	"github.com/invopop/gobl/uuid"
 	"github.com/invopop/yaml"
 
@@ -31,22 +30,17 @@ import (
 
 const envelopeID = "https://gobl.org/draft-0/envelope"
 
-// Classifiers of the triaged findings (known_findings.json).  Each is a
+// Classifier of the one triaged finding left (known_findings.json).  It is a
 // predicate over the document: *every* complaint of the schema must fall under
 // the trigger, otherwise the case is an unclassified violation.
+//
+// Repaired in /repo and no longer classified (each is a violation if it comes
+// back): tax identity codes of the pattern-exempt country (the schema of
+// tax.Identity.code now admits them), tax summaries stored with document
+// references (tax.Total / CategoryTotal / RateTotal validate code, rates, key
+// and country), extension values (held to cbc.Code by Extensions.Validate),
+// `tracking` of a bill.Delivery.
 const (
-	// `pattern` failures of `tax_id.code` members whose country GOBL exempts
-	// from the identity code pattern (tax.IdentityCodeValidationIgnore).
-	knownTaxIDExempt = "taxid-code-of-pattern-exempt-country"
-	// complaints inside a tax.Total that GOBL takes over from the input without
-	// validating it: the `tax` of an org.DocumentRef (payment line `document`,
-	// `preceding`, `ordering` references) and the payment total merged from them.
-	knownDocRefTaxTotal = "unvalidated-tax-total-of-document-reference"
-	// complaints about the value of a tax.Extensions member (`…/ext/<key>`),
-	// which GOBL does not hold to the cbc.Code pattern.
-	knownExtValue = "extension-value-not-held-to-code-pattern"
-	// complaints inside `tracking` of a bill.Delivery, which Delivery.Validate does not visit.
-	knownDeliveryTracking = "delivery-tracking-not-validated"
 	// a `format: uri` complaint about a text that is.URL accepted although it cannot be an
 	// RFC 3986 URI (no scheme, characters outside the URI repertoire, bare `%`).
 	knownURLNotURI = "url-accepted-by-is-url-is-not-an-rfc3986-uri"
@@ -63,6 +57,7 @@ type Case struct {
 	SchemaFile string          `json:"schema_file,omitempty"`
 	SchemaID   string          `json:"schema_id,omitempty"` // leaf: schema, Value
 	Value      json.RawMessage `json:"value,omitempty"`
+	GoType     string          `json:"go_type,omitempty"` // leaf: the Go type whose Validate accepted Value (re-run on replay)
 }
 
 // check is one (schema id, instance) pair to be judged.
@@ -323,47 +318,16 @@ func checksOf(idx int, envJSON []byte, accepted bool) ([]*check, error) {
 	return out, nil
 }
 
-var (
-	reDocRefTax  = regexp.MustCompile(`^(/lines/[0-9]+/document|/preceding/[0-9]+|/ordering/[a-z]+/[0-9]+)/tax(/|$)`)
-	rePaymentTax = regexp.MustCompile(`^/tax/categories(/|$)`)
-	reExtValue   = regexp.MustCompile(`/ext/[^/]+$`)
-	reTracking   = regexp.MustCompile(`^/tracking(/|$)`)
-)
+var reTracking = regexp.MustCompile(`^/tracking(/|$)`)
 
 // classifyOne names the triaged trigger one schema complaint falls under ("" = none).
 func classifyOne(ck *check, e pyErr) string {
 	val := lookupPath(ck.inst, e.Path)
-	switch {
-	case e.Kw == "pattern" && strings.HasSuffix(e.Path, "/tax_id/code"):
-		parent := lookupPath(ck.inst, strings.TrimSuffix(e.Path, "/code"))
-		pm, ok := parent.(map[string]any)
-		if !ok {
-			return ""
-		}
-		country, _ := pm["country"].(string)
-		code, _ := pm["code"].(string)
-		for _, c := range tax.IdentityCodeValidationIgnore {
-			if string(c) == country && !tax.IdentityCodePatternRegexp.MatchString(code) {
-				return knownTaxIDExempt
-			}
-		}
-		return ""
-	case e.Kw == "format" && strings.HasSuffix(e.Path, "/url") && !reTracking.MatchString(e.Path):
+	if e.Kw == "format" && strings.HasSuffix(e.Path, "/url") && !reTracking.MatchString(e.Path) {
 		if t, ok := val.(string); ok && !isURIish(t) {
 			return knownURLNotURI
 		}
-		return ""
-	case reDocRefTax.MatchString(e.Path):
-		return knownDocRefTaxTotal
-	case rePaymentTax.MatchString(e.Path) && ck.id == base+"bill/payment":
-		return knownDocRefTaxTotal
-	case reExtValue.MatchString(e.Path) && (e.Kw == "pattern" || e.Kw == "minLength" || e.Kw == "maxLength"):
-		return knownExtValue
-	case reTracking.MatchString(e.Path) && ck.id == base+"bill/delivery":
-		return knownDeliveryTracking
 	}
-	// (an amount saturated at math.MinInt64 used to print as `--922….-8`; Amount.String
-	// now writes its decimal text, so a pattern complaint about an amount is a violation)
 	return ""
 }
 
